@@ -69,19 +69,38 @@ class Table:
                     out.append(g)
                 for _, t in g.calls():
                     c = self.F.callee_fn(t)
-                    if c is not None and c.id not in seen and c.impl_of and c.impl_of.get('self_head') == self.path and c.id != m.id \
-                            and not (c.vis or '').startswith('Public'):
+                    if c is None or c.id in seen or c.id == m.id:
+                        continue
+                    if c.impl_of and c.impl_of.get('self_head') == self.path and not (c.vis or '').startswith('Public'):
                         work.append(c)
+                    elif c.impl_of and c.impl_of.get('self_head') == self.data_path and not c.impl_of.get('trait'):
+                        work.append(c)    # a method of the entry type (e.g. `RequestData::complete`)
+                    elif self._takes_table_part(c, t):
+                        work.append(c)    # a free helper that is handed the table's map or timer queue
         return out
 
     def _has(self, m, *n):
         return any(callee_is(t, *n) for g in self.bodies(m) for _, t in g.calls())
 
+    def _takes_table_part(self, c, t=None):
+        """a free function (not a method of some other type) one of whose parameters is the table's map or timer queue type"""
+        if c.impl_of and c.impl_of.get('self_head'):
+            return False
+        if c.kind not in ('Fn', 'AssocFn'):
+            return False
+        tys = [c.local_ty(k) for k in range(1, c.argc + 1)]
+        return any(('HashMap<' in ty or 'DelayQueue<' in ty) for ty in tys)
+
     def is_helper(self, f):
-        """closures, and private methods of the table: parameters of these are followed into their callers by the provenance rules"""
+        """closures, private methods of the table, and free helpers that are handed the table's map / timer queue: parameters of these are followed
+        into their callers by the provenance rules"""
         if f.kind == 'Closure':
             return True
-        return bool(f.impl_of and f.impl_of.get('self_head') == self.path and not (f.vis or '').startswith('Public'))
+        if f.impl_of and f.impl_of.get('self_head') == self.path and not (f.vis or '').startswith('Public'):
+            return True
+        if f.impl_of and f.impl_of.get('self_head') == self.data_path and not f.impl_of.get('trait'):
+            return True
+        return self._takes_table_part(f)
 
     def inserting(self):
         return [m for m in self.methods if self._has(m, 'hash_map::VacantEntry::insert', 'HashMap::insert', 'hash_map::Entry::or_insert', 'hash_map::Entry::or_insert_with')]
@@ -94,6 +113,9 @@ class Table:
         return [m for m in self.methods if self._has(m, 'DelayQueue::poll_expired')]
 
     def one(self, ms, role):
+        if len(ms) > 1:
+            # private helpers are judged through the entry points that call them
+            ms = [m for m in ms if not self.is_helper(m)] or ms
         if len(ms) != 1:
             raise CannotDecide('%s table: %d methods in role %s' % (self.side, len(ms), role))
         return ms[0]
